@@ -461,6 +461,9 @@ func GenMerge(t *rapid.T, ctx *Ctx, sc *Scenario, cfg CaseCfg, depth int, label 
 	if cfg.Family == FamSmall && cfg.MaxIn >= 3 && rapid.IntRange(0, 14).Draw(t, label+":manyInputs") == 0 {
 		k = rapid.IntRange(4, 12).Draw(t, label+":nInMany") // many inputs in one merge
 	}
+	if cfg.Family == FamSmall && rapid.IntRange(0, 39).Draw(t, label+":noInputs") == 0 {
+		k = 0 // a merge of nothing: an empty segment
+	}
 	ins := make([]*SegCase, k)
 	drops := make([]*roaring.Bitmap, k)
 	for i := range ins {
